@@ -61,12 +61,13 @@ def gen_cases(pid, tier, rng):
     cases = []   # (wrapper, pieces(list of str), sched(list))
     # thorough: exhaustive to length 4 over the 11 symbols plus a sample of length 5-6 (30000 for the one wrapper of C02, 1500 for
     # the six of C06, which with 4000 took half an hour and 28 GB); length 5 exhaustively was 6*10^7 cases and 35 GB
-    L = 3 if tier == "quick" else 4
+    L = 3 if tier == "quick" or pid != "C02" else 4
     strings = []
     for l in range(0, L + 1):
         strings += [list(t) for t in itertools.product(ALPHA, repeat=l)]
     if tier != "quick":
-        strings += [[rng.choice(ALPHA) for _ in range(rng.choice([5, 5, 6]))] for _ in range(30000 if pid == "C02" else 1500)]
+        # C06 runs eleven wrappers over every string: exhaustive to length 3 and a sample of lengths 4-6 there (length 4 exhaustively was 21 minutes and 22 GB)
+        strings += [[rng.choice(ALPHA) for _ in range(rng.choice([5, 5, 6] if pid == "C02" else [4, 4, 5, 6]))] for _ in range(30000 if pid == "C02" else 5000)]
     for _ in range(300 if tier == "quick" else 3000):
         n = rng.choice([6, 8, 17, 64, 300, 4096 if tier != "quick" else 1000])
         strings.append([rng.choice(ALPHA + ['b', ' ', '\n', '\0', '\x7f', 'ÿ', ' ', '!', '\t', 'c', 'd', '§', '¼', '¾', 'ç', 'æ', 'þ', '¦', '、', '\u2026']) for _ in range(rng.randint(4, n))])
@@ -75,6 +76,9 @@ def gen_cases(pid, tier, rng):
         for pre in ' !\n\t#~a':
             for pos in range(0, 17):
                 strings.append(list("x" * pos + pre + sp + "y" * (18 - pos)))
+    # line endings of every kind inside the text (buffers compare equal to their own text whatever it holds)
+    for t in ["a\r\nb", "\r\n", "x\r", "\n\r", "<\r\n>", "a\r\n\r\nb&"]:
+        strings.append(list(t))
     # every ASCII byte between two letters: exactly five of them are replaced, every other one passes through unchanged
     for c in range(128):
         strings.append(['a', chr(c), 'b'])
@@ -241,7 +245,7 @@ def run(pid, tier):
     chk.cov["rule"] = ("strings over {<,>,&,\",',a,e-acute,euro,U+1D11E} exhaustive to length %d (thorough: plus a sample of length 5-6) plus random to 4 KiB; all chunkings of short strings into write_str pieces, and the text handed over char by char through write_char; renderings of 1-9 KiB (thorough: to 20 KiB) with special characters through every wrapper; "
                        "schedules exhaustive over {a1,a2,a7,i,f7,a0} to length %d, a failure and a zero-accept at every offset, random long ones; wrappers %s. "
                        "non-trivial = text has a special byte and (several pieces or a non-empty schedule); distinct by case line") % (
-                        3 if tier == "quick" else 4, 3 if tier == "quick" or pid != "C02" else 4, "D" if pid == "C02" else "H,B,HB,BB,D")
+                        3 if tier == "quick" or pid != "C02" else 4, 3 if tier == "quick" or pid != "C02" else 4, "D" if pid == "C02" else "H,B,HB,BB,D,FB")
     chk.notes["result_histogram"] = hist
     chk.assumptions += ["Display impls are well-behaved (stop at the first fmt error)", "sinks follow io::Write's contract and do not override write_all"]
     # the model as the theorems see it (vm_compute inside Coq) against the model as the correspondence runs it (extracted OCaml)
